@@ -805,6 +805,17 @@ def guard_enumerate_index(fn, var):
             for t in n.targets:
                 if isinstance(t, ast.Name) and t.id == var:
                     v = n.value
+                    ce = v if isinstance(v, ast.SetComp) else (v.args[0] if isinstance(v, ast.Call) and isinstance(v.func, ast.Name) and v.func.id == "set" and len(v.args) == 1 and isinstance(v.args[0], (ast.GeneratorExp, ast.ListComp, ast.SetComp)) else None)
+                    if ce is not None:
+                        # {j for .. for j, c in enumerate(..) ..}: the elements are enumerate indices
+                        if isinstance(ce.elt, ast.Name) and any(
+                            isinstance(g.iter, ast.Call) and isinstance(g.iter.func, ast.Name) and g.iter.func.id == "enumerate"
+                            and isinstance(g.target, ast.Tuple) and isinstance(g.target.elts[0], ast.Name) and g.target.elts[0].id == ce.elt.id
+                            for g in ce.generators
+                        ):
+                            adds += 1
+                            continue
+                        return False
                     if not (isinstance(v, ast.Call) and isinstance(v.func, ast.Name) and v.func.id == "set" and not v.args):
                         return False
         if isinstance(n, ast.AugAssign) and isinstance(n.target, ast.Name) and n.target.id == var:
@@ -1133,26 +1144,32 @@ def run_alias(repo, chk):
     for t in ("mass", "width"):
         if t not in attrs_read:
             chk.violation("B-alias", apc.key, "resonance.%s" % t, "add_particle_constraints no longer reads the resonance's .%s" % t, file=LOADER, line=apc.lineno)
-    # the prefix rewrite:  <new> = prefix_map[<p>] + <name>[len(<p>):]   (structural, names free)
-    def _is_rewrite(v):
-        if not (isinstance(v, ast.BinOp) and isinstance(v.op, ast.Add)):
-            return False
-        l, r = v.left, v.right
-        if not (isinstance(l, ast.Subscript) and isinstance(l.value, ast.Name) and l.value.id == "prefix_map" and isinstance(l.slice, ast.Name)):
-            return False
-        pvar = l.slice.id
-        if not (isinstance(r, ast.Subscript) and isinstance(r.slice, ast.Slice) and r.slice.upper is None):
-            return False
-        lo = r.slice.lower
-        return (
-            isinstance(lo, ast.Call) and isinstance(lo.func, ast.Name) and lo.func.id == "len"
-            and len(lo.args) == 1 and isinstance(lo.args[0], ast.Name) and lo.args[0].id == pvar
-        )
-
-    if not any(isinstance(n, ast.Assign) and _is_rewrite(n.value) for n in walk_local(apc.node)):
-        chk.violation("B-alias", apc.key, "prefix-rewrite", "the prefix rewrite `prefix_map[p] + name[len(p):]` changed shape", file=LOADER, line=apc.lineno)
-    else:
-        chk.instance("B-alias", "add_particle_constraints rewrites a prefixed key as prefix_map[prefix] + rest")
+    # the prefix rewrite, decided by interpreting the loop that fills params_dic from the particle's configuration
+    from ..sym import Translator as _Tr, Unmodelled as _Un
+    import sympy as _sp
+    loops = [n for n in walk_local(apc.node) if isinstance(n, ast.For) and any(isinstance(c, ast.Call) and isinstance(c.func, ast.Attribute) and c.func.attr == "startswith" for c in ast.walk(n)) and any(isinstance(x, ast.Name) and x.id == "params_dic" for x in ast.walk(n))]
+    all_sw = [c for c in walk_local(apc.node) if isinstance(c, ast.Call) and isinstance(c.func, ast.Attribute) and c.func.attr == "startswith"]
+    loops = [l for l in loops if all(any(x is c for x in ast.walk(l)) for c in all_sw)]
+    loops = sorted(loops, key=lambda l: sum(1 for _ in ast.walk(l)))[:1]  # the innermost loop that holds every prefix test
+    if len(loops) != 1:
+        raise AnalysisError("add_particle_constraints: the loop that copies prefixed keys into params_dic was not found (found %d)" % len(loops))
+    cfg_in = {"m0_min": _sp.Symbol("a"), "g0_max": _sp.Symbol("b"), "m_sigma": _sp.Symbol("c"), "g_free": _sp.Symbol("d"), "mass_range": _sp.Symbol("e"), "width_x": _sp.Symbol("f"), "J": _sp.Symbol("g"), "model": "BW"}
+    env = {"prefix_map": dict(prefix_map), "particle_config": dict(cfg_in), "params_dic": {}}
+    try:
+        _Tr(repo, max_depth=1).exec_stmt(loops[0], env, apc.mod, 0)
+    except _Un as e:
+        raise AnalysisError("add_particle_constraints: prefix loop cannot be interpreted: %s" % e)
+    want_pd = {}
+    for k_, v_ in cfg_in.items():
+        for pfx, tgt in prefix_map.items():
+            if k_.startswith(pfx):
+                want_pd[tgt + k_[len(pfx):]] = v_
+        if any(k_.startswith(t_) for t_ in prefix_map.values()):
+            want_pd[k_] = v_
+    okp = env["params_dic"] == want_pd
+    chk.instance("B-alias", "add_particle_constraints: prefixed keys are rewritten as prefix_map[prefix] + rest (interpreted on %d keys -> %s): %s" % (len(cfg_in), sorted(env["params_dic"]), okp))
+    if not okp:
+        chk.violation("B-alias", apc.key, "prefix-rewrite", "the loop over the particle's configuration fills params_dic with %s, expected %s (prefix replaced by its canonical spelling, canonical keys copied)" % (env["params_dic"], want_pd), file=LOADER, line=loops[0].lineno)
     chk.extra["particle_key_map"] = pkm
     chk.extra["prefix_map"] = prefix_map
     chk.require_count("B-alias", 10)
@@ -1208,7 +1225,20 @@ _FALSY = [False, None, 0, "", 0.0]
 def _export_self(repo, fn, cls_key, name, extra=None, falsy=False):
     """a symbolic object for an export: attribute X holds the marker string "self.X" (or, with falsy=True, a falsy
     python value - False / None / 0 are legitimate option values that the export must not drop)"""
-    from ..sym import SelfObj
+    from ..sym import SelfObj as _SO, Unmodelled as _Unm
+
+    class SelfObj(_SO):
+        """attributes the export reads by name (getattr(self, k)) are bound on demand"""
+
+        def get(self, name, tr, depth):
+            try:
+                return _SO.get(self, name, tr, depth)
+            except _Unm:
+                if name.startswith("__"):
+                    raise
+                self.attrs[name] = _FALSY[len(self.attrs) % len(_FALSY)] if falsy else "self." + name
+                return self.attrs[name]
+
     cls = repo.cls(cls_key)
     attrs = {}
     for n in walk_local(fn.node):
